@@ -109,6 +109,11 @@ fn candidates(p: &Plan) -> Vec<Plan> {
         q.fs_yield_pm = 0;
         out.push(q);
     }
+    if p.disk_full_from.is_some() {
+        let mut q = p.clone();
+        q.disk_full_from = None;
+        out.push(q);
+    }
     if p.sched_yield_pm > 0 {
         let mut q = p.clone();
         q.sched_yield_pm = 0;
